@@ -347,6 +347,9 @@ def run(plan, ch, want_log=False):
     if "graph" in plan:
         try:
             job, gref, ginfo = G.materialise(plan["graph"])
+        except G.LoweringFailed as e:
+            return dict(harness=NAME, viol=[dict(prop="C10", cls="lowering_raised", detail=str(e), sig={})], probes={}, fired={}, digest="lowering-raised",
+                        steps=0, simtime=0.0, stats={}, nontrivial={}, end="lowering-raised", verdict="raised")
         except G.Refused:
             return dict(harness=NAME, viol=[], probes={"lowering_refused_duplicate_names": 1}, fired={}, digest="refused", steps=0, simtime=0.0,
                         stats={}, nontrivial={}, end="refused")
